@@ -17,7 +17,7 @@ Proof.
   - intros Z0. destruct (rw_reg s KICK_RAW) eqn:R; [|reflexivity].
     destruct (proj1 (ev_kick _ EI) R) as [_ P]. lia.
   - intros j RJ fd IN. pose proof (dy_kern _ DI j RJ) as DK. unfold wtarget in IN.
-    destruct (Z.eqb_spec (efd_raw s) 0) as [E|_].
+    destruct (raw_is_pipe s j).
     + destruct DK as (_ & _ & v & vw & _ & _ & _ & _ & OW & KW & PW). rewrite OW, KW in IN.
       change (K_PIPE_W =? K_EVENTFD) with false in IN. change (K_PIPE_W =? K_PIPE_W) with true in IN. cbv iota in IN.
       destruct IN as [<-|[]]. exact PW.
@@ -117,7 +117,7 @@ Qed.
 Lemma raw_got_event_C : forall s j, InvW s -> rw_reg s j = true -> PC s (raw_got_event sc s j).
 Proof.
   intros s j I RJ. unfold raw_got_event. cbv zeta.
-  set (toread := if efd_raw s =? 0 then 1024 else 8).
+  set (toread := if raw_is_pipe s j then 1024 else 8).
   pose proof (kstable_read (kern s) (rw_rfd s j) toread) as KS.
   pose proof (KP_read (kern s) (rw_rfd s j) toread) as KT1.
   destruct (k_read (kern s) (rw_rfd s j) toread) as [k1 [n|e]]; cbn [fst] in KS, KT1.
